@@ -141,10 +141,10 @@ CLAIMS["C16"] = (
 # sub-agents reported about the unchanged tree; appended to the level text.
 ADDENDA = {
     "C15": " Also: in newFormatter the letters d x X o b lead to the integer formatters and e E f F g G to the float ones (R15.6); an integer derived from a regexp/strings byte offset by arithmetic alone is never made into a value — a taint analysis with function summaries (R15.7).",
-    "C07": " Also: a signed division of two payload ints is reached only along paths that have set math.MinInt64 / -1 apart (R07.10).",
-    "C06": " Also: in pkg/scan a byte compared with a letter is compared with the other case of that letter too (R06.8). R06.5 follows an entry point that only delegates to the worker behind it.",
+    "C07": " Also: a signed division of two payload ints is reached only along paths that have set math.MinInt64 / -1 apart (R07.10). R07.5 requires the shifted operand of >> to be signed and of >>> unsigned at the SHR itself.",
+    "C06": " Also: in pkg/scan a byte compared with a letter is compared with the other case of that letter too (R06.8). R06.5 follows an entry point that only delegates to the worker behind it. Further: no literal-node builder of package cst reaches the flag-selected inferrer (R06.9).",
     "C04": " Also: the index of a range over a sub-slice s[a:] is never used to index s itself (R04.14). Further: every path on which head drops a record sends downstream-done or has seen it sent (R04.15); a slice sent on a channel is not re-sliced by the sender afterwards (R04.16).",
-    "C01": " Also: the CSV writer sends a field's text out whole only on the edge where fieldNeedsQuotes is false, and otherwise in pieces cut at the next special character (R01.3f). Further: a separator that is not a constant is looked for in the accumulated line and never in the piece ReadString has just returned (R01.3g); a buffer kept in a struct field and re-sliced to a computed length is handed on only after counting loops have assigned every cell below that length (R01.3h); the batch getters of the CSV-lite and TSV readers all test for the byte-order mark (R01.9).",
+    "C01": " Also: the CSV writer sends a field's text out whole only on the edge where fieldNeedsQuotes is false, and otherwise in pieces cut at the next special character (R01.3f). Further: a separator that is not a constant is looked for in the accumulated line and never in the piece ReadString has just returned (R01.3g); a buffer kept in a struct field and re-sliced to a computed length is handed on only after counting loops have assigned every cell below that length (R01.3h); the batch getters of the CSV-lite and TSV readers all test for the byte-order mark (R01.9). R01.2 also sees header cells copied in bulk (copy) into the header list.",
     "C03": " Also: no in-place alteration reaches a value that is neither fresh nor the function's own parameter, with no frozen exception left for the indexed-assignment and json-parse sites (the analysis sees that a value is known to be a collection, or a merge of fresh values and known collections); indexed assignment installs no package-level singleton into a slot it then converts in place (R03.6).",
     "C05": " Also: the verbs do not consult the reader's NR/FNR other than for messages (R05.10); a value the verb keeps in its own state enters a record only as a copy (R05.11); a function given both a handle and the decompression flag hands the handle back unwrapped only where every decompressing value of the flag is excluded (R05.12); the command line of a prepipe child contains a file name only through the quoting function (R05.13). Further: the end blocks run after an unconditional State.Update in the end-of-stream branch (R05.14); a flag parser's store to the file-name lists appends to the field's present value (R05.15).",
     "C08": " Also: an evaluated value that is put into a map by the interpreter (map literals, emitf) is dominated by the absent test, as assignments are (R08.9b); math-class functions of two or three arguments that are not table dispatches return absent for an absent argument in any position (abstract kind evaluation, R08.4b); the right-hand side of a compound assignment is the operator node itself (R08.10b).",
@@ -165,8 +165,8 @@ NOT_APPLICABLE = {
 
 CLAIMS["C13"] = (
     "table reader over the case blocks of the join verb's option switch + side provenance of every key computation (right = a record function's input, left = received from the left file's reader channel) + dominating-guard check of every emission call and of the was-paired store + path rule over the left-file ingest loop, all on SSA",
-    "Decides the shape facts every pairing rests on, and nothing about which records pair: each flag of the join verb's own parser stores what its documentation says (--np, --ul, --ur, --ignore-empty, -u, -s, -j, -l, -r, --lp, --rp, --lk, -f); a record of the right stream is keyed by rightJoinFieldNames and a record of the left file by leftJoinFieldNames; paired records are formed only under emitPairables, unpaired right records emitted only under emitRightUnpairables, unpaired left ones only under emitLeftUnpairables, none under a test of another of the three; a bucket is marked paired where a right record finds it, under no test of emitPairables (--np --ul); every function that forms keys tests them with anyValueIsEmpty under ignoreEmptyJoinFields; every left record whose key was taken is appended to a bucket or to the unpairable list on every path (or dropped on the false side of emitLeftUnpairables). NOT decided: key equality as text, order of pairs, composition of the paired record and --lp/--rp collisions, the sorted-mode bucket keeper, equivalence of -s and -u on sorted input — the bulk of the statement.",
-    "Trusts go/ssa. The flag-to-field table is the documented meaning of the flags, frozen in checker/c13.go; the option field names are the repository's own and a rename makes R13.1 undecided. Built late (after six seeding rounds for the other properties); validated by six breaking and three benign variants of my own and by one late seeding run (DESIGN §6).",
+    "Decides the shape facts every pairing rests on, and nothing about which records pair: each flag of the join verb's own parser stores what its documentation says (--np, --ul, --ur, --ignore-empty, -u, -s, -j, -l, -r, --lp, --rp, --lk, -f); a record of the right stream is keyed by rightJoinFieldNames and a record of the left file by leftJoinFieldNames; paired records are formed only under emitPairables, unpaired right records emitted only under emitRightUnpairables, unpaired left ones only under emitLeftUnpairables, none under a test of another of the three; a bucket is marked paired where a right record finds it, under no test of emitPairables (--np --ul); every function that forms keys tests them with anyValueIsEmpty under ignoreEmptyJoinFields; every left record whose key was taken is appended to a bucket or to the unpairable list on every path (or dropped on the false side of emitLeftUnpairables); every option field the parser stores into is read somewhere (R13.7: --prepipe was not); the constructor fills left…/right… fields from option fields of the same side only (R13.8); ingestLeftFile stands under no test of EndOfStream (R13.9). NOT decided: key equality as text, order of pairs, composition of the paired record and --lp/--rp collisions, the sorted-mode bucket keeper, equivalence of -s and -u on sorted input — the bulk of the statement.",
+    "Trusts go/ssa. The flag-to-field table is the documented meaning of the flags, frozen in checker/c13.go; the option field names are the repository's own and a rename makes R13.1 undecided. Built late (after six seeding rounds for the other properties); validated by six breaking and three benign variants of my own and by one late seeding run of four changes, of which it reported none before and two after rules were written for them (DESIGN §6).",
     "DESIGN.md §3 C13",
 )
 
